@@ -273,9 +273,9 @@ func suiteUpdateCLI(env *Env, res *Result) {
 		if target.Operator != "@rx" && target.Operator != "!@rx" {
 			if o.after != orig {
 				shape := "update_rewrites_non_rx_line"
-				if commentMentionsBefore(c.file, rule) {
+				if commentMentionsBefore(c.file, rule) && explainedByFirstMention(orig, o.after, rule.ID, c.chainK) {
 					shape = "update_confused_by_comment_mentioning_id"
-				} else if idPrefixBefore(c.file, rule) {
+				} else if idPrefixBefore(c.file, rule) && explainedByFirstMention(orig, o.after, rule.ID, c.chainK) {
 					shape = "update_id_prefix_confusion"
 				}
 				res.addFailure(Failure{Kind: "C11", Shape: shape, Input: input, Detail: "target has operator " + target.Operator + " but the file changed"})
@@ -327,13 +327,13 @@ func suiteUpdateCLI(env *Env, res *Result) {
 			_ = gotLines
 			_ = wantLines
 			switch {
-			case commentMentionsBefore(c.file, rule):
+			case commentMentionsBefore(c.file, rule) && explainedByFirstMention(orig, o.after, rule.ID, c.chainK):
 				shape = "update_confused_by_comment_mentioning_id"
 			case o.after == wantCut:
 				shape = "update_drops_text_after_continuation"
 			case strings.Contains(target.Operand, "\"@rx ") || strings.Contains(o.gen.Stdout, "\"@rx "):
 				shape = "update_operand_contains_marker"
-			case idPrefixBefore(c.file, rule):
+			case idPrefixBefore(c.file, rule) && explainedByFirstMention(orig, o.after, rule.ID, c.chainK):
 				shape = "update_id_prefix_confusion"
 			}
 			res.addFailure(Failure{Kind: "C11", Shape: shape, Input: input, Detail: fmt.Sprintf("got %q want %q", clip(diffAround(o.after, want), 300), clip(diffAround(want, o.after), 300))})
@@ -364,6 +364,39 @@ func suiteUpdateCLI(env *Env, res *Result) {
 		}
 	}
 	compareWithModel(env, res, corr)
+}
+
+// The recorded finding C11-id-text-elsewhere, as narrowly as the code's behaviour allows: the rule
+// is located at the FIRST line containing the text id:NNNNNN; for chain offset 0 the line directly
+// above that text is rewritten, for a larger offset a line below it.  A change anywhere else is not
+// that finding.
+func explainedByFirstMention(orig, after, id string, chainK int) bool {
+	a, b := strings.Split(orig, "\n"), strings.Split(after, "\n")
+	if len(a) != len(b) {
+		return false
+	}
+	first := -1
+	for i, l := range a {
+		if strings.Contains(l, "id:"+id) {
+			first = i
+			break
+		}
+	}
+	if first < 0 {
+		return false
+	}
+	for i := range a {
+		if a[i] == b[i] {
+			continue
+		}
+		if chainK == 0 && i != first-1 {
+			return false
+		}
+		if chainK > 0 && i <= first {
+			return false
+		}
+	}
+	return true
 }
 
 func commentMentionsBefore(f *genRulesFile, rule genRule) bool {
